@@ -834,7 +834,7 @@ class CFG:
             other = other.to_deterministic()
         else:
             raise NotImplementedError
-        if other.is_empty():
+        if other.is_empty() or self.is_empty():
             return CFG()
         generate_empty = self.contains([]) and other.accepts([])
         cfg = self.to_normal_form()
